@@ -1,0 +1,13 @@
+//go:build verif
+
+// Contracts for the verification framework in /verif (comment-only file; it is
+// compiled only with -tags verif and contributes no code). Syntax: DESIGN.md §3.
+
+package qos
+
+// ---- manager.go: as seen by session teardown (C16) ----
+
+//@ func (m *Manager) RemoveSubscriberQoS
+//@   trusted touches the QoS manager's own maps and kernel maps only
+//@   modifies nothing
+//@   sets relQoS = relQoS + 1
